@@ -182,7 +182,11 @@ func c06(args []string) int {
 			if err := json.Unmarshal(raw, &j); err != nil {
 				return c06Res{Err: err.Error()}
 			}
-			return c06Exec(j)
+			r, ok := confirm(func() c06Res { return c06Exec(j) }, func(r c06Res) bool { return r.Diff != "" })
+			if !ok {
+				return c06Res{Err: unstableMsg}
+			}
+			return r
 		})
 	}
 	f := explore.ParseFlags("C06", args, nil)
